@@ -96,6 +96,11 @@ def _get_shortest_public_reexport(
     return ".".join(shortest_id), alias or ""
 
 
+def _replace_if_safeds_keyword_in_path(path: str) -> str:
+    """Escape every segment of a dotted path that is a Safe-DS keyword."""
+    return ".".join(_replace_if_safeds_keyword(part) for part in path.split("."))
+
+
 def _create_name_annotation(name: str) -> str:
     return f'@PythonName("{name}")'
 
